@@ -25,6 +25,12 @@ SCALAR_SPECS = [
     ("{1,'a'}", {1, "a"}),
     ("{int,'a'}", {int, "a"}),
     ("{1.5}", {1.5}),
+    # falsy example values declare their types like any other example (C22-r4m1)
+    ("0", 0),
+    ("''", ""),
+    ("{0,''}", {0, ""}),
+    ("{0.0,None}", {0.0, None}),
+    ("{False}", {False}),
 ]
 
 COL_SPECS = [
@@ -35,6 +41,8 @@ COL_SPECS = [
     ("{int,float}", {int, float}),
     ("1", 1),
     ("{1,'a'}", {1, "a"}),
+    ("{0,''}", {0, ""}),
+    ("{0.0,None}", {0.0, None}),
 ]
 
 
